@@ -1,7 +1,7 @@
 From Coq Require Import List ZArith Lia Bool.
 Import ListNotations.
 Require Import Base Tree Driver Inl3e Render Props.
-Require QFullDefs QFull ItemSimDefs ItemSimMain QuoteSimDefs QS2Spec2 EolCRDefs EolCR EolCRFull EolCRRenderDefs EolCRRender Uncond C02Full ComposeC03 C05Full C13All Total InlineFuelAll BlankPrefix EolFinalDefs EolFinalGenMain EolCRLFDefs EolCRLFSim EolCRLFGen ChkDocAll ChkDocAll2.
+Require ItemSimDefs ItemSimMain QuoteSimDefs QS2Spec2 EolCRDefs EolCR EolCRFull EolCRRenderDefs EolCRRender Uncond C02Full ComposeC03 C05Full C13All Total InlineFuelAll BlankPrefix EolFinalDefs EolFinalGenMain EolCRLFDefs EolCRLFSim EolCRLFGen ChkDocAll ChkDocAll2.
 Open Scope Z_scope.
 
 (* The properties whose formal statement (Props.v, or the statement file named) is a theorem about the model for everything the
@@ -42,12 +42,6 @@ Proof. exact EolCRLFGen.parseBlocks_crlf_limit. Qed.
 Theorem C09_quote_blocks : QuoteSimDefs.parseBlocks_quote_statement.
 Proof. exact QS2Spec2.parseBlocks_quote. Qed.
 
-(* C09, block-quote clause through the inline pass and the renderer (safe mode) *)
-Theorem C09_quote_parse : QFullDefs.parseFull_quote_statement.
-Proof. exact QFull.parseFull_quote. Qed.
-Theorem C09_quote_render : QFullDefs.renderDoc_quote_statement.
-Proof. exact QFull.renderDoc_quote. Qed.
-
 (* C09, list-item clause at the block layer *)
 Theorem C09_item_blocks : ItemSimDefs.parseBlocks_item_statement.
 Proof. exact ItemSimMain.parseBlocks_item. Qed.
@@ -75,8 +69,6 @@ Print Assumptions C14_crlf_nobracket.
 Print Assumptions C14_crlf_limit.
 Print Assumptions C17_chkDoc.
 Print Assumptions C09_quote_blocks.
-Print Assumptions C09_quote_parse.
-Print Assumptions C09_quote_render.
 Print Assumptions C09_item_blocks.
 Print Assumptions C14_cr_parse.
 Print Assumptions C14_cr_render.
